@@ -2,7 +2,7 @@
 from vlib import env, core, gen, asserts, printer, gread, kf  # noqa: F401
 
 ID = "C03"
-BUDGET = {"quick": 2500, "thorough": 25000}
+BUDGET = {"quick": 2000, "thorough": 25000}
 # G92 X/Y/Z outside episodes belongs to the C03 domain; while KF-G92-XYZ-SIGN is open those ops are not rendered (counted)
 PROFILE = gen.profile(retract="matched", zbias=True, rebase=not kf.is_open("KF-G92-XYZ-SIGN"), rebase_w=1, park=True)
 RULE = ("As C01 but restricted to the C03 quantifier (matched retract cycles; no G28 / G92 XYZ / M206 while an episode is "
